@@ -25,7 +25,7 @@ import (
 )
 
 type c08Case struct {
-	Mode       string // resp-count | unary-nil | req-count
+	Mode       string // resp-count | unary-nil | unary-both | req-count
 	Carrier    string
 	S          Script `json:",omitempty"` // resp-count
 	NilKind    string `json:",omitempty"` // unary-nil: untyped | typed
@@ -45,6 +45,20 @@ func propC08(c c08Case) *Outcome {
 		return c08RespCount(c, o)
 	case "unary-nil":
 		return c08UnaryNil(c, o)
+	case "unary-both":
+		// a unary handler (or interceptor) returns a response value next to a non-nil error: the error is the outcome
+		o.NonTrivial = true
+		s := &c.S
+		e := modelScript(s)
+		obs := runScript(s, c.Carrier, carrierOpts{})
+		o.Observed = obs
+		if dev := statusDeviation(s, e, obs); dev != "" {
+			if sig := c02Known(&c02Case{Carrier: c.Carrier, S: c.S}, e, obs, dev); sig != "" {
+				return o
+			}
+			return o.failf("%s: unary handler returned a response together with its error: %s", c.Carrier, dev)
+		}
+		return o
 	default:
 		return c08ReqCount(c, o)
 	}
@@ -276,6 +290,11 @@ func genC08(t *rapid.T) c08Case {
 	case 1:
 		return c08Case{Mode: "req-count", Carrier: rapid.SampledFrom([]string{cHTTP, cHTTPMux, cHTTPPer}).Draw(t, "carrier"), NReq: rapid.IntRange(0, 4).Draw(t, "nreq"), Method: "ServerStream", FirstEmpty: rapid.Bool().Draw(t, "firstempty"), Decorated: rapid.IntRange(0, 2).Draw(t, "decorated") == 0}
 	}
+	if rapid.IntRange(0, 9).Draw(t, "unaryboth") == 0 {
+		return c08Case{Mode: "unary-both", Carrier: rapid.SampledFrom(sutCarriers).Draw(t, "carrier"),
+			S: Script{Kind: kUnary, Reqs: []MsgSpec{{Raw: []byte("q")}}, Resps: []MsgSpec{genMsg(t, "partial", 300)}, RecvN: -1, HeaderAt: -1, RespWithErr: true,
+				Final: ErrSpec{Kind: "status", Code: rapid.Uint32Range(1, 16).Draw(t, "bothcode"), Msg: []byte("failed")}}}
+	}
 	c := c08Case{Mode: "resp-count", Carrier: rapid.SampledFrom(sutCarriers).Draw(t, "carrier")}
 	c.S = genScript(t, scriptGenOpts{MaxMsg: 300, MDKeys: 1, Cardinality: true, NoEarly: true, OnlyKinds: []string{kClientStream}, PlainStatus: true})
 	// make the response count itself a drawn quantity, 0..8
@@ -321,7 +340,7 @@ var _ = http.StatusOK
 const c08Rule = "rapid-generated: (resp-count) client-streaming calls whose raw handler emits n in 0..8 responses with nil or non-nil final status, with/without headers and trailers, on inproc/httpgrpc.Server/HandleServices; " +
 	"(unary-nil) unary handlers returning an untyped or typed nil response, protobuf via the real client and JSON via a raw HTTP request; (req-count) clients streaming 0..4 requests to a single-request method over HTTP; " +
 	"oracle: n=1 and OK => success with exactly that message, otherwise never success and no message handed out with nil error; nil response => non-OK status; >=2 requests => handler RecvMsg and the call fail; " +
-	"also generated since the seeded rounds: empty first/surplus messages, wrapped errors, a renderer that writes nothing, descriptions decorated by grpchan.InterceptServer before registration; " +
+	"also generated since the seeded rounds: unary handlers returning a response next to a non-nil error (unary-both), the per-method HTTP server form, empty first/surplus messages, wrapped errors, a renderer that writes nothing, descriptions decorated by grpchan.InterceptServer before registration; " +
 	"non-trivial = n != 1, non-nil status, nil response, or request count != 1; distinct by case hash"
 
 func TestC08(t *testing.T) {
